@@ -126,7 +126,10 @@ def check(case: Dict[str, Any]) -> Outcome:
             w = _wire(J.create_notification(method, payload)); exp = {"kind": "notification", "method": method, "params": payload}
         elif em == "create_response":
             res = case.get("result", payload)
-            w = _wire(J.create_response(i, res)); exp = {"kind": "result", "id": i, "result": res}
+            if case.get("none_result"):
+                w = _wire(J.create_response(i, None)); exp = {"kind": "result", "id": i, "absent": ["error", "method"]}
+            else:
+                w = _wire(J.create_response(i, res)); exp = {"kind": "result", "id": i, "result": res}
         elif em == "create_error_response":
             w = _wire(J.create_error_response(i, code, emsg, payload)); exp = {"kind": "error", "id": i, "error": {"code": code, "message": emsg, "data": payload}}
         elif em == "JSONRPCMessage.create_request":
@@ -274,6 +277,9 @@ def _messages_for_transport(case: Dict[str, Any]) -> List[Tuple[Any, Dict[str, A
         (J.JSONRPCMessage.create_request(method, payload, id=i), {"kind": "request", "id": i, "method": method, "params": payload}),
         ({"jsonrpc": "2.0", "id": i, "method": method, "params": payload}, {"kind": "request", "id": i, "method": method, "params": payload}),
         (J.create_request(method, None, id=i), {"kind": "request", "id": i, "method": method, "absent": ["params", "result", "error"]}),
+        # a handler for a "void" method answers with whatever its action returned - None: still one valid response on the wire
+        (J.create_response(i, None), {"kind": "result", "id": i, "absent": ["error", "method"]}),
+        (J.create_response(i), {"kind": "result", "id": i, "absent": ["error", "method"]}),
         (J.create_notification(method), {"kind": "notification", "method": method, "absent": ["params", "id", "result", "error"]}),
         (J.JSONRPCMessage.create_notification(method), {"kind": "notification", "method": method, "absent": ["params", "id", "result", "error"]}),
     ]
@@ -499,6 +505,8 @@ def cases(draw, emitters: List[str]):
                             "message": draw(json_text)}
     if em in ("to_specific_type", "from_specific_type"):
         case["shape"] = draw(st.sampled_from(["request", "notification", "result", "error"]))
+    if em == "create_response" and draw(st.integers(0, 5)) == 0:
+        case["none_result"] = True
     if em in ("JSONRPCResponse()", "create_response"):
         case["result"] = draw(st.one_of(json_objects(6), st.lists(json_values(3), max_size=3), st.sampled_from([[], 0, 0.0, "", False]), st.integers(-3, 3), json_text, st.booleans(), st.floats(allow_nan=False, allow_infinity=False)))
     if em == "BatchProcessor.create_batch_rejection_error":
